@@ -288,3 +288,69 @@ Proof.
   intros H. unfold select. rewrite map_map. apply map_ext_in. intros i Hi.
   rewrite (nth_indep _ e (f d)) by (rewrite map_length; now apply H). apply map_nth.
 Qed.
+
+(* ------------------------------------------------------------ stability *)
+(* the stable sort keeps, for every key, the subsequence of the elements with that key; and a
+   sorted list is determined by these subsequences.  keq a b decides "same key" and le orders keys *)
+Section Stable.
+  Context {A : Type}.
+  Variable le : A -> A -> bool.
+  Variable keq : A -> A -> bool.
+  Hypothesis keq_le : forall x y, keq x y = true -> le x y = true.
+  Hypothesis keq_sym : forall x y, keq x y = keq y x.
+  Hypothesis keq_trans : forall x y z, keq x y = true -> keq y z = true -> keq x z = true.
+  Hypothesis keq_refl : forall x, keq x x = true.
+  Hypothesis le_antisym : forall x y, le x y = true -> le y x = true -> keq x y = true.
+  Hypothesis le_trans : forall x y z, le x y = true -> le y z = true -> le x z = true.
+
+  Lemma insert_filter k x l :
+    filter (keq k) (insert le x l) = if keq k x then x :: filter (keq k) l else filter (keq k) l.
+  Proof.
+    induction l as [|y r IH]; cbn [insert filter]; [reflexivity|].
+    destruct (le x y) eqn:E; cbn [filter]; [reflexivity|].
+    rewrite IH. destruct (keq k x) eqn:Kx, (keq k y) eqn:Ky; try reflexivity.
+    exfalso. assert (keq x y = true) by (apply (keq_trans x k y); [now rewrite keq_sym|assumption]).
+    apply keq_le in H. congruence.
+  Qed.
+
+  Lemma isort_filter k l : filter (keq k) (isort le l) = filter (keq k) l.
+  Proof.
+    induction l as [|x r IH]; [reflexivity|]. cbn [isort fold_right filter]. fold (isort le r).
+    rewrite insert_filter, IH. reflexivity.
+  Qed.
+
+  Lemma sorted_filter_unique : forall l l',
+    StronglySorted (fun a b => le a b = true) l -> StronglySorted (fun a b => le a b = true) l' ->
+    (forall k, filter (keq k) l = filter (keq k) l') -> l = l'.
+  Proof.
+    induction l as [|a r IH]; intros l' S S' H.
+    - destruct l' as [|b r']; [reflexivity|]. specialize (H b). cbn in H. rewrite keq_refl in H. discriminate.
+    - destruct l' as [|b r']; [specialize (H a); cbn in H; rewrite keq_refl in H; discriminate|].
+      inversion S as [|? ? Sr Fa]; inversion S' as [|? ? Sr' Fb]; subst. rewrite Forall_forall in Fa, Fb.
+      assert (In_l' : forall x, In x (a :: r) -> In x (b :: r')).
+      { intros x Hx. assert (Hf : In x (filter (keq x) (a :: r))) by (apply filter_In; split; [assumption|apply keq_refl]).
+        rewrite H in Hf. now apply filter_In in Hf. }
+      assert (In_l : forall x, In x (b :: r') -> In x (a :: r)).
+      { intros x Hx. assert (Hf : In x (filter (keq x) (b :: r'))) by (apply filter_In; split; [assumption|apply keq_refl]).
+        rewrite <- H in Hf. now apply filter_In in Hf. }
+      assert (Lab : le a b = true).
+      { destruct (In_l b (or_introl eq_refl)) as [->|Hb]; [apply keq_le, keq_refl|now apply Fa]. }
+      assert (Lba : le b a = true).
+      { destruct (In_l' a (or_introl eq_refl)) as [->|Ha]; [apply keq_le, keq_refl|now apply Fb]. }
+      assert (Kab : keq a b = true) by now apply le_antisym.
+      assert (a = b).
+      { pose proof (H a) as Ha. cbn [filter] in Ha. rewrite keq_refl, Kab in Ha. now inversion Ha. }
+      subst b. f_equal. apply IH; try assumption.
+      intros k. pose proof (H k) as Hk. cbn [filter] in Hk. destruct (keq k a); [now inversion Hk|assumption].
+  Qed.
+
+  Hypothesis le_total : forall x y, le x y = true \/ le y x = true.
+
+  (* the stable sort depends on the list only through its per-key subsequences *)
+  Lemma isort_stable_invariant l l' :
+    (forall k, filter (keq k) l = filter (keq k) l') -> isort le l = isort le l'.
+  Proof.
+    intros H. apply sorted_filter_unique; try (now apply isort_sorted).
+    intros k. now rewrite !isort_filter.
+  Qed.
+End Stable.
